@@ -25,8 +25,7 @@ def run(ctx):
         # only histories that reach a commit or a cleanup matter here
         h = [x for x in h if any(op["ev"] in ("commit", "cleanup") for op in x)]
         rng = random.Random(ctx.seed * 7 + len(vttl))
-        if not ctx.thorough:
-            h = rng.sample(h, min(len(h), 500))
+        h = rng.sample(h, min(len(h), 5000 if ctx.thorough else 500))
         g3 = ctx.instance("G3_C04_" + tag, "VolumeImpl", volfam.GEN_ALL,
                           dict(base, VTtl=vttl, Datas={"e", "a", "b", "L"},
                                MetaSet={"m0", "m1", "mt", "mu"} if not vttl else {"m0", "m2", "mu"}, MaxOps=12))
@@ -74,7 +73,7 @@ def run(ctx):
                 "algorithms, writes/deletes between compact and commit; G3 random depth 12) + seeded random histories, each on a "
                 "non-TTL and on a 1h-TTL volume; every key is read back after every step; non-trivial = a successful write "
                 "followed by a state-changing step on the same execution; distinct by hash")
-    ctx.exhaustive = ctx.thorough
+    ctx.exhaustive = False
     ctx.assumptions += volfam.ASSUMPTIONS + [
         "scan-based compaction (Volume.Compact) is invoked on the volume object of the running server through the VerifStore "
         "hook; index-based compaction, commit and cleanup through the vacuum RPCs",
